@@ -44,6 +44,7 @@ type Seed struct {
 	Tiny    bool              `json:"tiny"`  // eligible for pair mutations
 	IdentityOnly bool          `json:"identity_only"` // run as is (tar variants, regression corpus)
 	Origin  string            `json:"origin,omitempty"`
+	Source  string            `json:"source,omitempty"` // functest file the seed is a verbatim copy of
 	data    []byte
 }
 
@@ -162,7 +163,11 @@ func buildSeeds(dir string) *seedBuilder {
 			b.notes = append(b.notes, fmt.Sprintf("seed %s skipped: %v", name, err))
 			continue
 		}
-		b.add(&Seed{Name: name, Kind: "pkg", Module: mod.Name, Ext: sp.ext, Layout: sp.layout, Content: sp.content, Quick: sp.quick, Tiny: sp.tiny && len(data) <= 2048, Origin: "functest/handmade, as is"}, data)
+		source := ""
+		if sp.data == nil {
+			source = filepath.Join(P, sp.file)
+		}
+		b.add(&Seed{Name: name, Kind: "pkg", Module: mod.Name, Ext: sp.ext, Layout: sp.layout, Content: sp.content, Quick: sp.quick, Tiny: sp.tiny && len(data) <= 2048, Origin: "functest/handmade, as is", Source: source}, data)
 		if sp.sign && mod.Sign != nil {
 			signed, err := b.signCopy(name, sp.ext, data, sp.sigType, sp.flags)
 			if err != nil {
